@@ -10,17 +10,21 @@ package expressions
 
 //@ func expLogicalAnd [C07]
 //@   scope functional
-//@   at call ConvertGoType#1 assert arg0 == nv.Value && arg1 == "str"
-//@   at call IsTrueString#1 assert arg1 == nv.ExitNum
-//@   at call ConvertGoType#2 assert arg0 == nv.Value && arg1 == "str"
-//@   at call IsTrueString#2 assert arg1 == nv.ExitNum
+//@   at call (*DataType).GetValue#1 assert arg0 == ret("(*ParserT).getLeftAndRightSymbols#1", 0).dt
+//@   at call ConvertGoType#1 assert arg0 == ret("(*DataType).GetValue#1", 0).Value && arg1 == "str"
+//@   at call IsTrueString#1 assert arg1 == ret("(*DataType).GetValue#1", 0).ExitNum && arg0 == unbox(ret("ConvertGoType#1", 0), string)
+//@   at call (*DataType).GetValue#2 assert arg0 == ret("(*ParserT).getLeftAndRightSymbols#1", 1).dt
+//@   at call ConvertGoType#2 assert arg0 == ret("(*DataType).GetValue#2", 0).Value && arg1 == "str"
+//@   at call IsTrueString#2 assert arg1 == ret("(*DataType).GetValue#2", 0).ExitNum && arg0 == unbox(ret("ConvertGoType#2", 0), string)
 
 //@ func expLogicalOr [C07]
 //@   scope functional
-//@   at call ConvertGoType#1 assert arg0 == nv.Value && arg1 == "str"
-//@   at call IsTrueString#1 assert arg1 == nv.ExitNum
-//@   at call ConvertGoType#2 assert arg0 == nv.Value && arg1 == "str"
-//@   at call IsTrueString#2 assert arg1 == nv.ExitNum
+//@   at call (*DataType).GetValue#1 assert arg0 == ret("(*ParserT).getLeftAndRightSymbols#1", 0).dt
+//@   at call ConvertGoType#1 assert arg0 == ret("(*DataType).GetValue#1", 0).Value && arg1 == "str"
+//@   at call IsTrueString#1 assert arg1 == ret("(*DataType).GetValue#1", 0).ExitNum && arg0 == unbox(ret("ConvertGoType#1", 0), string)
+//@   at call (*DataType).GetValue#2 assert arg0 == ret("(*ParserT).getLeftAndRightSymbols#1", 1).dt
+//@   at call ConvertGoType#2 assert arg0 == ret("(*DataType).GetValue#2", 0).Value && arg1 == "str"
+//@   at call IsTrueString#2 assert arg1 == ret("(*DataType).GetValue#2", 0).ExitNum && arg0 == unbox(ret("ConvertGoType#2", 0), string)
 
 //@ func expElvis [C07]
 //@   scope functional
